@@ -1262,7 +1262,9 @@ def classify_module(items):
                     and all(iv == ["int", 1] and ik in ("a", "g", "o", "x") for ik, iv in ag[0][2][1])):
                 kk, cc = classify_value(sc[0][2])
                 return kk, f"{cc}+{'following' if sc[0][0] < ag[0][0] else 'preceding'}-{ag[0][2][0]}"
-        kinds = "+".join(sorted({v[0] for _, v in items}))
+        # (a string item is named with its class: the module class then says WHICH kind of string it takes, so that a listed
+        # finding about one kind of string does not account for modules that fail with another)
+        kinds = "+".join(sorted({(f"str({str_class(v[1])})" if v[0] == "str" and isinstance(v[1], str) else v[0]) for _, v in items}))
         return "module", f"{tag}-{kinds}"
     k, vd = items[0]
     prefix = "" if k in ("a", "g", "o", "x") else f"key-{key_class(k)}/"
